@@ -191,6 +191,8 @@ PROPS["C13"] = {
     "units": [
         {"name": "C13a", "pkg": "server", "test": "TestVerifC13a",
          "quick": {"shards": 16, "checks": 300}, "thorough": {"shards": 16, "checks": 10000, "timeout": 3000}},
+        {"name": "C13b", "pkg": "server", "test": "TestVerifC13b",
+         "quick": {"shards": 8, "checks": 150}, "thorough": {"shards": 16, "checks": 3000, "race": True, "timeout": 3000}},
     ],
 }
 
